@@ -471,3 +471,71 @@ class c_roundtrip_inv_item:
 
     def ensures_same(item_type, data, result):
         return (result.item_type == item_type, result.data == data)
+
+
+# ---------------------------------------------------------------- a few more whole messages
+def pack_pong(nonce):
+    return _PACK("pong", nonce=nonce)
+
+
+def pack_feefilter(fee_filter_value):
+    return _PACK("feefilter", fee_filter_value=fee_filter_value)
+
+
+def pack_reject(message, code, reason, data):
+    return _PACK("reject", message=message, code=code, reason=reason, data=data)
+
+
+def pack_empty(which):
+    return _PACK(which)
+
+
+@contract("contracts.c16_msg:pack_pong")
+class c_pack_pong:
+    props = ["C16"]
+    sig = dict(nonce=U64)
+    returns = Bytes()
+
+    def ensures_wire(nonce, result):
+        return result == le(nonce, 8)
+
+
+@contract("contracts.c16_msg:pack_feefilter")
+class c_pack_feefilter:
+    props = ["C16"]
+    sig = dict(fee_filter_value=U64)
+    returns = Bytes()
+
+    def ensures_wire(fee_filter_value, result):
+        return result == le(fee_filter_value, 8)
+
+
+@contract("contracts.c16_msg:pack_reject")
+class c_pack_reject:
+    """reject: var-string message, one-byte code, var-string reason, 32-byte hash"""
+    props = ["C16"]
+    sig = dict(message=Bytes(sample_max=12), code=Int(0, 255), reason=Bytes(sample_max=40), data=Bytes(n=32))
+    returns = Bytes()
+
+    def requires(message, code, reason, data):
+        return len(message) < 2 ** 32 and len(reason) < 2 ** 32
+
+    def ensures_wire(message, code, reason, data, result):
+        return result == varstr(message) + bytes([code]) + varstr(reason) + data
+
+
+def _empty_contract(which):
+    class C:
+        props = ["C16"]
+        sig = dict(which=Const(which))
+        returns = Bytes()
+        func = staticmethod(lambda: pack_empty)
+
+        def ensures_empty(which, result):
+            return result == b""
+    C.__name__ = "c_pack_" + which
+    contract("contracts.c16_msg:pack_empty[%s]" % which)(C)
+
+
+for _w in ("verack", "getaddr", "mempool", "sendheaders", "filterclear", "sendaddrv2"):
+    _empty_contract(_w)
